@@ -27,7 +27,6 @@ TABLE = {
     frozenset(["ModuleIR::get_or_insert_submodule"]): ("s", {"measure": {"ModuleIR::get_or_insert_submodule": 1}}),
     frozenset(["TypeGenerator::resolve_type_path_recurse"]): ("e", {"id": {"TypeGenerator::resolve_type_path_recurse": 1}}),
     frozenset(["description::type_name_with_type_params"]): ("e", {"ty": {"description::type_name_with_type_params": 0}}),
-    frozenset(["type_def_is_copy"]): ("e", {"ty": {"type_def_is_copy": 1}}),
     frozenset(["utils::types_equal_inner"]): ("g", {"check": "types_equal"}),
     frozenset(["derives::collect_type_ids"]): ("g", {"check": "collect_type_ids"}),
 }
@@ -85,6 +84,10 @@ def check_sccs(ctx, rid, g, reach, crates, bindings):
             continue
         ent = TABLE.get(sig)
         if ent is None:
+            spec_ty = auto_type_argument(ctx, comp)
+            if spec_ty is not None:
+                type_expression(ctx, rid, key, comp, spec_ty)
+                continue
             why = auto_type_expression(ctx, comp)
             if why is not None:
                 meas = auto_structural(ctx, comp)
@@ -107,6 +110,19 @@ def check_sccs(ctx, rid, g, reach, crates, bindings):
             type_expression(ctx, rid, key, comp, spec)
         else:
             guarded(ctx, rid, key, comp, spec)
+
+
+def auto_type_argument(ctx, comp):
+    """a cycle of one function that takes exactly one &Type / &TypeDef of the registry: candidates for the (e) class by the type argument"""
+    if len(comp) != 1:
+        return None
+    fn = ctx.P.body(comp[0])
+    if fn is None or "body" not in fn:
+        return None
+    idx = [i for i, t in enumerate(fn.get("inputs", [])) if re.match(r"&scale_info::(Type|TypeDef)<", t)]
+    if len(idx) != 1 or any(t == "u32" for t in fn.get("inputs", [])):
+        return None
+    return {"ty": {cshort(comp[0]): idx[0]}}
 
 
 def auto_type_expression(ctx, comp):
